@@ -794,7 +794,52 @@ def pinned_inputs():
         ("call-body-not-a-call:choice", ":: A\n+ [go] -> T(\"(\") + (\")\")\n:: T(x)\nhi"),
         ("legacy-if-without-close", ":: A\n<<if x\nt\n<<endif>>"),
         ("input-type-attribute-in-block", ":: Start\n@if True:\n@input type=\"x\" name=\"n\"\n@endif"),
-    ]
+    ] + surface_fix_inputs()
+
+
+def surface_fix_inputs():
+    """Shapes touched by the fixes F17j (opener indentation of a Python block), F17k (story lines right-stripped by the
+    comment pre-pass), F17l (# lines in the @metadata block), F17m (# lines in a join block): the minimal pairs of the
+    patches and neighbours of them, so that model and compiler are compared on every one of these paths on every run."""
+    q3 = "'" * 3
+    out = []
+    for name, ind in [("flush", ""), ("2sp", "  "), ("tab", "\t"), ("tab+sp", "\t ")]:
+        for opener, closer in [("@py:", "@endpy"), ("<<py", ">>")]:
+            body = [ind + "    s = " + q3, ind + "  a", "  b", ind, "", ind + "    " + q3, ind + "    t = 1"]
+            out.append((f"F17j:{name}:{opener}", "\n".join([":: S", "@if flag:", ind + opener] + body + [ind + closer, "@endif"])))
+            out.append((f"F17j:for:{name}:{opener}",
+                        "\n".join([":: S", "@for i in xs:", ind + opener] + body + [ind + closer, "@endfor"])))
+        out.append((f"F17j:top:{name}", "\n".join([":: S", ind + "@py:", ind + "  x = [", ind + "1]", " y = 2", ind + "@endpy", "t"])))
+        out.append((f"F17j:top-legacy:{name}", "\n".join([":: S", ind + "<<py", ind + "  x = [", ind + "1]", " y = 2", ind + ">>", "t"])))
+    out.append(("F17j:unclosed-legacy", ":: S\n@if f:\n  <<py\n    x = 1\n  y"))
+    tails = ["   ", "\t", "    // c", "  \t // c"]
+    for t in tails:
+        story = [":: S", "Hello", "Hello<>", "Hello <>", "~ x = 1", "~ y = [", "  1,   ", "  2]   ", "@if x:", "  in if", "@else:",
+                 "  other", "@endif", "@for i in xs:", "  {i}", "@endfor", "@py:", "  z = 1   ", "@endpy", "<<py", "  z = 2   ", ">>",
+                 "<<if x>>", "leg", "<<endif>>", "* [J] -> @join", "    block", "@join", "@render card(x)", "@input name=\"n\"",
+                 "@hook turn_end S", "# note", "+ [Go] -> S", "-> S"]
+        python_code = {6, 7, 17, 20}
+        out.append((f"F17k:all:{t!r}", "\n".join(l if k in python_code else l + t for k, l in enumerate(story))))
+        for k, l in enumerate(story):
+            if k not in python_code and k % 3 == len(t) % 3:
+                out.append((f"F17k:{l.strip()[:12]}:{t!r}", "\n".join(story[:k] + [l + t] + story[k + 1:])))
+    out.append(("F17k:pair:blanks", ":: S\nHello   \nBye"))
+    out.append(("F17k:pair:comment", ":: S\nHello    // c\nBye"))
+    out.append(("F17k:preamble", "import x   \n@metadata   \n  title: X   \n@start S   \n:: S   \nhi   "))
+    meta = ["@metadata", "  title: X", "  author: Y", ":: Start", "hi"]
+    for c in ["# note", "  # note: this", "\t#", "  #: x", " # a // b"]:
+        for k in (1, 2, 3):
+            out.append((f"F17l:{c!r}@{k}", "\n".join(meta[:k] + [c] + meta[k:])))
+    out.append(("F17l:then-unindented", "@metadata\n  a: 1\n# c\nb: 2\n  c: 3\n:: S\nhi"))
+    join = [":: Start", "* [J] -> @join", "   inner", "     deeper", "", "   ~ x = 1", "@join", "after"]
+    for c in ["# c", "  # c", "   # c", "        # c", "\t# c", "  # c // d"]:
+        for k in (2, 3, 4, 5, 6):
+            out.append((f"F17m:{c!r}@{k}", "\n".join(join[:k] + [c] + join[k:])))
+    out.append(("F17m:only-comments", ":: Start\n* [J] -> @join\n  # a\n# b\n@join\nafter"))
+    out.append(("F17m:comment-then-dedent", ":: Start\n* [J] -> @join\n# a\nplain\n@join\nafter"))
+    out.append(("F17m:error-line", ":: Start\n* [J] -> @join\n# a\n   ok\n  # b\n   {bad\n@join\nafter"))
+    out.append(("F17m:in-if", ":: Start\n@if x:\n  * [J] -> @join\n  # a\n      inner\n@endif"))
+    return [("surface-fix:" + name.split(":")[0], text) for name, text in out]     # four families in the evidence
 
 
 
